@@ -114,6 +114,21 @@ def oracle(case):
     cond = make_conditions(names, cols, vals, case['container'])
     before = snapshot(cond)
     n = case['n']
+    # a second live model: same columns, identical conditioned columns (hence the same normal scores for the same
+    # conditions), free columns shuffled against them (another dependence).  It answers the same conditions first.
+    if case['seed'] % 2:
+        rs_b = np.random.RandomState(case['seed'])
+        other_tab = df.copy()
+        perm_b = rs_b.permutation(len(df))
+        for j in range(d):
+            if j not in cols:
+                other_tab[names[j]] = df[names[j]].to_numpy()[perm_b]
+        byst = M.build_gaussian(case['config'], names, random_state=case['seed'])
+        try:
+            byst.fit(other_tab)
+            byst.sample(3, conditions=make_conditions(names, cols, vals, case['container']))
+        except Exception:
+            pass
     out = value(model.sample, n, conditions=cond, what='sample(conditions=%s)' % case['container'])
     require(snapshot(cond) == before, 'sample modified the caller\'s conditions: %r -> %r' % (before, snapshot(cond)), tag='conditions-mutated')
     require(isinstance(out, pd.DataFrame) and len(out) == n, 'sample(%d, conditions) returned %s rows' % (n, len(out)), tag='rows')
